@@ -3,6 +3,7 @@ import SFV.Model.FockTensor
 import SFV.Model.PhaseSpace
 import SFV.Model.Bosonic
 import SFV.Model.FockPrep
+import SFV.Model.GaussBackend
 /-! Driver for K3 (Gaussian simulator model over `Rat`) and K4 (Fock tensor index algebra over
 Gaussian integers).  Ops: `fock.apply`, `gauss.run`. -/
 namespace SFV.Drv.Sim
@@ -176,6 +177,14 @@ def gaussStep (st : GS Rat) (j : Json) : R (GS Rat) := do
     return initThermal st (← rat "pop") (← nat "k")
   else if op == "addMode" then
     return addMode st (← nat "m")
+  else if op == "bkbs" then
+    return bkBeamsplitter st (← rat "c") (← rat "s") (← rat "ct") (← rat "sn") (← nat "k") (← nat "l")
+  else if op == "bkcoh" then
+    return bkPrepareCoherent st ⟨(← rat "re"), (← rat "im")⟩ (← nat "k")
+  else if op == "bksq" then
+    return bkPrepareSqueezed st (← rat "c") (← rat "s") (← rat "ch") (← rat "sh") (← nat "k")
+  else if op == "bkdsq" then
+    return bkPrepareDisplacedSqueezed st ⟨(← rat "re"), (← rat "im")⟩ (← rat "c") (← rat "s") (← rat "ch") (← rat "sh") (← nat "k")
   else if op == "fromCov" then
     let modes ← getNatList j "modes"
     let A ← asRatMat' (← j.getObjVal? "A")
@@ -204,6 +213,8 @@ def xpStep (V : XP Rat) (j : Json) : R (XP Rat) := do
     return linMap (rotRows (← nat "k") (← rat "c") (← rat "s")) V
   else if op == "bs" then
     return linMap (bsRows (← nat "k") (← nat "l") (← rat "c") (← rat "s") (← rat "ct") (← rat "sn")) V
+  else if op == "bkbs" then
+    return linMap (sfBsRows (← nat "k") (← nat "l") (← rat "c") (← rat "s") (← rat "ct") (← rat "sn")) V
   else if op == "displace" then
     let re ← rat "re"
     let im ← rat "im"
